@@ -61,6 +61,11 @@ frac = [
     r("impurity_bits_deterministic", secs=180, jobs=4, n=4, d=1, classes=3, wpat=-2, wmax=4, wdiv=10, canon=1, crit=1),
     r("impurity_bits_deterministic", secs=120, jobs=2, n=3, d=1, classes=3, wpat=-2, wmax=7, wdiv=10, canon=1),
 ]
+# larger nodes on concrete data (9 rows, 2 features, 3 classes, labels and tenth-weights from a seeded generator):
+# one path each, 24 fits per path
+for crit in (0, 1):
+    for ws in range(40):
+        frac.append(r("impurity_bits_deterministic", secs=30, n=9, d=2, classes=3, xseq=1, pattern=-3, wpat=-3, wseed=ws, wmax=9, wdiv=10, fits=24, crit=crit))
 quick += bits3 + frac
 thorough += bits3 + frac
 thorough.append(r("impurity_bits_deterministic", secs=900, jobs=16, n=5, d=1, classes=3, wpat=-2, wmax=6, wdiv=10, canon=1))
